@@ -45,6 +45,11 @@ fn nd_timings() -> Vec<Tm> {
         Tm { cycle: 0.1, delay: 0.2, rep: Rp::Times(1), reverse: false },
         Tm { cycle: 0.7, delay: 0.0, rep: Rp::None, reverse: true },
         Tm { cycle: 0.1, delay: 0.0, rep: Rp::Times(2), reverse: false },
+        // delays whose sum with the total is rounded in f32 (fl(fl(delay + total) - delay) != total)
+        Tm { cycle: 1.0, delay: 0.3, rep: Rp::None, reverse: false },
+        Tm { cycle: 2.0, delay: 0.1, rep: Rp::None, reverse: false },
+        Tm { cycle: 0.4, delay: 0.5, rep: Rp::None, reverse: false },
+        Tm { cycle: 1.0, delay: 0.1, rep: Rp::Times(1), reverse: true },
     ]
 }
 
@@ -619,7 +624,7 @@ pub fn run(run: Run) -> ! {
     cov.insert("traces_validated_against_impl".into(), json!(acc.apps));
     cov.insert("evaluations".into(), json!(acc.rule_checks));
     cov.insert("distinct_nontrivial".into(), json!(acc.nontrivial));
-    cov.insert("rule".into(), json!(format!("real headless bevy App (AnimationPlugin<C>, hand-driven Time resource, single-threaded executor): ALL {} frame-delta schedules of length {} over {{0, 2^-9, 1/4, 8}} s x ALL {} per-entity control histories over {{nothing, disable, enable, reset, set_timeline(T2)}} (one control before each frame) x 16 timeline configurations (12 plain: delay 0|1/2 x None|Times 1|Infinite x forward|reverse, cycle 1 s; 4 MergedTimelines of two components staggered by delay and/or with different repeat counts - delay = smallest, total = largest component total), one App per schedule hosting every (timing, control history) as its own entity; plus a deviation-bounded pass: default delta 1/4, all schedules of {} frames with <= {} deviations ({} schedules) x control histories with <= 1 control; plus a non-dyadic pass ({} schedules over deltas 0, 50 ms, 100 ms, 8 s x 4 timelines whose totals 0.3/0.4/0.7/0.3 s are not exactly representable x reset histories); plus a late pass ({} Apps: a second copy of every entity is spawned into the running App before frame 1, 2 or 3); plus a clock pass ({} Apps: Time::set_relative_speed(2 | 1/2), Time::pause during the odd frames or during frames 1-2 - the frame's delta is Time::delta()); plus a presence pass ({} Apps: all schedules x ALL histories over {{nothing, detach the target component, attach a fresh one}}; histories starting with detach spawn the animator without the component) - the animator's clock, state and events must not depend on the component being there, R6/R7 apply while it is. Rules per entity-frame: R1 position += delta while Waiting/Playing and frozen when Ended; R2 state never moves backwards; R3 Waiting only while position < delay; R4 Ended iff position >= total (checked at the frame-start position); R5 never Ended when infinite; R6 Ended => component == terminal values; R7 Playing => component == timeline at the frame-start position; R8 disabled => nothing changes, no event; R9 exactly one event per state change carrying the final state, one Ended per run. non-trivial = entity-frames in which the state changed", nsched, depth, ctl_h.len(), horizon, k, dev_apps, nd_apps, late_apps, clock_apps, pr_apps)));
+    cov.insert("rule".into(), json!(format!("real headless bevy App (AnimationPlugin<C>, hand-driven Time resource, single-threaded executor): ALL {} frame-delta schedules of length {} over {{0, 2^-9, 1/4, 8}} s x ALL {} per-entity control histories over {{nothing, disable, enable, reset, set_timeline(T2)}} (one control before each frame) x 16 timeline configurations (12 plain: delay 0|1/2 x None|Times 1|Infinite x forward|reverse, cycle 1 s; 4 MergedTimelines of two components staggered by delay and/or with different repeat counts - delay = smallest, total = largest component total), one App per schedule hosting every (timing, control history) as its own entity; plus a deviation-bounded pass: default delta 1/4, all schedules of {} frames with <= {} deviations ({} schedules) x control histories with <= 1 control; plus a non-dyadic pass ({} schedules over deltas 0, 50 ms, 100 ms, 8 s x 8 timelines whose totals are not exactly representable - 0.3/0.4/0.7/0.3 s, and four with a delay whose sum with the total rounds (0.3+1, 0.1+2, 0.5+0.4, 0.1+2x1 reversing) x reset histories); plus a late pass ({} Apps: a second copy of every entity is spawned into the running App before frame 1, 2 or 3); plus a clock pass ({} Apps: Time::set_relative_speed(2 | 1/2), Time::pause during the odd frames or during frames 1-2 - the frame's delta is Time::delta()); plus a presence pass ({} Apps: all schedules x ALL histories over {{nothing, detach the target component, attach a fresh one}}; histories starting with detach spawn the animator without the component) - the animator's clock, state and events must not depend on the component being there, R6/R7 apply while it is. Rules per entity-frame: R1 position += delta while Waiting/Playing and frozen when Ended; R2 state never moves backwards; R3 Waiting only while position < delay; R4 Ended iff position >= total (checked at the frame-start position); R5 never Ended when infinite; R6 Ended => component == terminal values; R7 Playing => component == timeline at the frame-start position; R8 disabled => nothing changes, no event; R9 exactly one event per state change carrying the final state, one Ended per run. non-trivial = entity-frames in which the state changed", nsched, depth, ctl_h.len(), horizon, k, dev_apps, nd_apps, late_apps, clock_apps, pr_apps)));
     cov.insert("exhaustive".into(), json!(true));
     cov.insert("apps".into(), json!(acc.apps));
     cov.insert("events_observed".into(), json!(acc.events));
